@@ -34,6 +34,8 @@ DEV_STATES = {
     "one-table": "CREATE TABLE users (id integer PRIMARY KEY, name text); INSERT INTO users VALUES (1, 'a'), (2, 'b');",
     "two-tables": "CREATE TABLE users (id integer PRIMARY KEY, name text); INSERT INTO users VALUES (1, 'a'); CREATE TABLE posts (id integer); INSERT INTO posts VALUES (7);",
     "view-only": "CREATE VIEW lonely AS SELECT 1 AS x;",
+    # a virtual table with rows (and the shadow tables the module keeps for it)
+    "virtual-only": "CREATE VIRTUAL TABLE docs USING fts4(body); INSERT INTO docs (body) VALUES ('hello'), ('world');",
 }
 
 
@@ -61,13 +63,16 @@ def scenarios(tier):
             files_variants.append((stmts, fail))
     files_variants.append((VIEW_FIRST, 2))
     files_variants.append(([STMTS[0], STMTS[1], "DROP VIEW v1;", "DROP TABLE t1;", "CREATE VIEW v9 AS SELECT 2 AS two;"], 0))   # ends with a view and no table
-    cmds = ["migrate-validate", "migrate-lint", "migrate-diff", "schema-apply-sql", "schema-diff-sql", "schema-apply-hcl", "schema-diff-hcl"]
+    # a file that opens its own transaction and fails inside it
+    files_variants.append((["BEGIN;", STMTS[0], BAD, "COMMIT;"], 3))
+    files_variants.append(([STMTS[0], "BEGIN;", STMTS[1], BAD, "COMMIT;"], 4))
+    cmds = ["migrate-validate", "migrate-lint", "migrate-lint-1", "migrate-diff", "schema-apply-sql", "schema-diff-sql", "schema-apply-hcl", "schema-diff-hcl"]
     for cmd in cmds:
         for dev in DEV_STATES:
             for stmts, fail in files_variants:
                 if cmd.endswith("-hcl") and (fail or stmts is VIEW_FIRST):
                     continue
-                if tier == "quick" and dev in ("two-tables", "absent") and fail not in (0, 2):
+                if tier == "quick" and dev in ("two-tables", "absent", "virtual-only") and fail not in (0, 2):
                     continue
                 scs.append({"id": len(scs) + 1, "cmd": cmd, "dev": dev, "stmts": stmts, "failat": fail})
     return scs
@@ -103,6 +108,9 @@ def one(sc):
             args = ["migrate", "validate", "--dir", durl, "--dev-url", devurl]
         elif c == "migrate-lint":
             args = ["migrate", "lint", "--dir", durl, "--dev-url", devurl, "--latest", "2"]
+        elif c == "migrate-lint-1":
+            # only the last file is linted: the first one is replayed as the base of the window
+            args = ["migrate", "lint", "--dir", durl, "--dev-url", devurl, "--latest", "1"]
         elif c == "migrate-diff":
             args = ["migrate", "diff", "next", "--dir", durl, "--dev-url", devurl, "--to", "file://" + hclfile]
         elif c == "schema-apply-sql":
@@ -123,8 +131,8 @@ def one(sc):
         failat = sc["failat"]
         if c == "migrate-diff" and not failat and "missing_table" not in txt:
             pass
-        return {"id": sc["id"], "cmd": c, "dev": sc["dev"], "dirty": sc["dev"] in ("one-table", "two-tables", "view-only"), "needs": needs, "failat": failat if needs else 0,
-                "ok": rc == 0 or (c == "migrate-lint" and "diagnostic" in txt and "Error:" not in txt and "rror:" not in txt), "notclean": "not clean" in txt or "is not clean" in txt, "same": before == after, "empty": empty or after == "absent",
+        return {"id": sc["id"], "cmd": c, "dev": sc["dev"], "dirty": sc["dev"] in ("one-table", "two-tables", "view-only", "virtual-only"), "needs": needs, "failat": failat if needs else 0,
+                "ok": rc == 0 or (c.startswith("migrate-lint") and "diagnostic" in txt and "Error:" not in txt and "rror:" not in txt), "notclean": "not clean" in txt or "is not clean" in txt, "same": before == after, "empty": empty or after == "absent",
                 "dirsame": dirbefore == dirafter, "diffcmd": c == "migrate-diff", "msg": txt.strip().split("\n")[-1][:200] if rc else "", "rc": rc}
     finally:
         ws.close()
